@@ -54,7 +54,7 @@ REQUIRED = ["pairs", "rotations", "translations", "scalings", "renumberings", "l
             "sholl_steps_compared", "angles_compared", "orders_compared", "volume_compared",
             "small_extent_scalings", "file_sourced_trees", "tap_sholl_get",
             "twins_with_float64_columns", "remeasured_after_all_queries"]
-FLOOR = {"quick": 350, "thorough": 7000}
+FLOOR = {"quick": 350, "thorough": 28000}
 SHARDS = {"quick": 8, "thorough": 16}
 TIMEOUT = {"quick": 400, "thorough": 3000}
 
@@ -436,7 +436,7 @@ def run(ctx):
     geoms = ["growth", "plane", "gauss", "far", "int", "pythag", "tiny", "micro", "axis", "coincident",
              "quarter"]
     with tap:
-        for k in range(ctx.scale(640, 12800)):
+        for k in range(ctx.scale(640, 51200)):
             shapes = ["binary", "neuron"] if k % 3 == 0 else None
             rc = G.random_recipe(rng, max_n=G.size_ladder(ctx, k, 10, 40, 150), shapes=shapes,
                                  geoms=geoms, types="soma" if rng.random() < 0.8 else "nonsoma",
